@@ -1,7 +1,7 @@
 """C09 - units and examples never interact (X1, X2)."""
 import ast
 
-from ..model import (AnalysisError, FunctionInfo, dotted, norm_text,
+from ..model import (AnalysisError, FunctionInfo, conditional_def, dotted, norm_text,
                      names_read, const_value, is_none, call_args)
 from ..rules import axes
 
@@ -205,18 +205,14 @@ def _axis_idiom(fn, name='axis'):
   """Resolves `axis = tf.constant(list(range(E))) if units > 1 else None`
   with E = len(T.shape) - 1 (possibly via a local dims): returns the number
   of trailing axes that are NOT reduced, or None when unrecognised."""
-  d = None
-  for st in ast.walk(fn.node):
-    if isinstance(st, ast.Assign) and dotted(st.targets[0]) == name:
-      d = st.value
-  if not isinstance(d, ast.IfExp):
+  cd = conditional_def(fn.node, name)
+  if cd is None:
     return None
-  t = d.test
+  t, body, orelse = cd
   if not (isinstance(t, ast.Compare) and dotted(t.left) == 'units'
           and isinstance(t.ops[0], ast.Gt) and const_value(
-              t.comparators[0]) == 1 and is_none(d.orelse)):
+              t.comparators[0]) == 1 and is_none(orelse)):
     return None
-  body = d.body
   if not (isinstance(body, ast.Call) and (dotted(body.func) or '').endswith(
       'constant') and body.args):
     return None
